@@ -84,8 +84,16 @@ def _key(k):
     return k if re.fullmatch(r"[A-Za-z0-9_-]+", k) else json.dumps(k, ensure_ascii=False)
 
 
-def _scalar(rng):
+Q3 = "'" * 3
+# strings of several lines, some of which look like comments, headers or keys
+_MULTILINE = ["#!/bin/sh\necho started\n", "# Welcome\nto the *server*\n  # indented heading\nbye", "first\n[fake.header]\nkey = 1\n",
+              "a\n\nb", "\nstarts with a newline", "ends with a quote\"\n", "tab\there\n#c", Q3 + "\nx", "ünï\n日本\n"]
+
+
+def _scalar(rng, one_line=True):
     r = rng.random()
+    if not one_line and r < 0.08:
+        return rng.choice(_MULTILINE)
     if r < 0.25:
         return rng.choice([0, 1, -1, 8080, 5600, 2**40])
     if r < 0.4:
@@ -105,7 +113,7 @@ def _scalar(rng):
 def _value(rng, one_line):
     r = rng.random()
     if r < 0.78:
-        return _scalar(rng)
+        return _scalar(rng, one_line)
     n = rng.randrange(0, 4)
     r2 = rng.random()
     if r2 < 0.6:
@@ -149,7 +157,14 @@ def derive_user(rng, d, depth, top=True):
     return u
 
 
-def _emit_scalar(rng, v):
+def _emit_scalar(rng, v, ml_ok=False):
+    if isinstance(v, str) and "\n" in v and ml_ok and rng.random() < 0.8:
+        # a multi-line string, basic or literal; a newline right after the opening delimiter is not part of the value
+        lead = "\n" if rng.random() < 0.5 or v.startswith("\n") else ""
+        if Q3 not in v and "\t" not in v and not v.endswith("'") and rng.random() < 0.5:
+            return Q3 + lead + v + Q3
+        body = v.replace("\\", "\\\\").replace('"', '\\"').replace("\t", "\\t")
+        return '"""' + lead + body + '"""'
     if isinstance(v, bool):
         return "true" if v else "false"
     if isinstance(v, int):
@@ -173,7 +188,7 @@ def _emit_scalar(rng, v):
     raise AssertionError(v)
 
 
-def _emit_value(rng, v):
+def _emit_value(rng, v, ml_ok=False):
     if isinstance(v, dict) and "$arr" in v:
         items = [_emit_value(rng, x) for x in v["$arr"]]
         if v.get("ml") and items:
@@ -183,7 +198,7 @@ def _emit_value(rng, v):
         return "{" + ", ".join(f"{_key(k)} = {_emit_value(rng, x)}" for k, x in v["$inl"].items()) + "}"
     if isinstance(v, dict) and "$tbl" in v:
         return "{" + ", ".join(f"{_key(k)} = {_emit_value(rng, x)}" for k, x in v["$tbl"].items()) + "}"
-    return _emit_scalar(rng, v)
+    return _emit_scalar(rng, v, ml_ok)
 
 
 def emit(rng, doc, feats):
@@ -233,7 +248,12 @@ def emit(rng, doc, feats):
                 if isinstance(v, dict) and v.get("ml") and v.get("$arr"):
                     feats.add("multiline-array")
                 noise(lines)
-                lines.append(deco(".".join(_key(x) for x in prefix + (k,)) + " = " + _emit_value(rng, v)))
+                val = _emit_value(rng, v, ml_ok=True)
+                if val.startswith(('"""', Q3)):
+                    feats.add("multiline-string")
+                    lines.append(".".join(_key(x) for x in prefix + (k,)) + " = " + val)      # no indent / trailing comment here
+                else:
+                    lines.append(deco(".".join(_key(x) for x in prefix + (k,)) + " = " + val))
         return deferred
 
     def table(path, d):
